@@ -16,3 +16,45 @@ def crc32(data: bytes) -> int:
 def crc32_signed_bytes(data: bytes) -> int:
     v = crc32(data)
     return v - (1 << 32) if v >= (1 << 31) else v
+
+
+# ----------------------------------------------------------------------------------------- forging (native search only)
+def _tables():
+    t = []
+    for n in range(256):
+        c = n
+        for _ in range(8):
+            c = (c >> 1) ^ 0xEDB88320 if c & 1 else c >> 1
+        t.append(c)
+    rev = {v >> 24: i for i, v in enumerate(t)}
+    return t, rev
+
+
+def forge_ascii(target, tries=4000):
+    """an ASCII string whose zlib.crc32 equals `target` (prefix + 4 forged characters, all below 0x80); None if none found.
+    Used only to turn a boundary value of the checksum into a concrete input for native replay."""
+    import zlib
+
+    t, rev = _tables()
+    for k in range(tries):
+        prefix = f"n{k}_".encode()
+        reg = zlib.crc32(prefix) ^ 0xFFFFFFFF  # internal register after the prefix
+        want = target ^ 0xFFFFFFFF
+        # walk the register backwards from `want` through 4 table steps
+        idx = []
+        w = want
+        for _ in range(4):
+            i = rev[w >> 24]
+            idx.append(i)
+            w = ((w ^ t[i]) << 8) & 0xFFFFFFFF
+        idx.reverse()
+        out = []
+        r = reg
+        for i in idx:
+            b = (r ^ i) & 0xFF
+            out.append(b)
+            r = (r >> 8) ^ t[i]
+        s = prefix + bytes(out)
+        if all(32 <= b < 0x7F for b in out) and zlib.crc32(s) == target:
+            return s.decode("ascii")
+    return None
